@@ -342,23 +342,25 @@ def Node.slice (n : Node) (f t : Nat) : Res Slice := sliceKids n.kids f t
 
 /-! ### insert_into / remove_range (Slice.insert_at, Slice.remove_between) -/
 
-def flatInsert (S : Schema) (ins : List Node) (parent : Option TypeId) (level : List Node) (d idx : Nat) :
+/-- the flat case of `insert_into` (`offset == dist` or the child at `dist` is a text node): the content is
+    *built* first (`content.cut(0, dist).append(insert).append(content.cut(dist))`; a cut inside a surrogate pair
+    raises), then, when the receiving node is complete in the slice (`parent`), the built content — with the two
+    halves of a split text around the inserted content and adjacent texts joined by `append` — is validated with
+    `parent.type.valid_content(result)`; `valid_content` never raises (a non-matching prefix is just `False`).
+    `idx` (the child index of `dist`) is no longer consulted. -/
+def flatInsert (S : Schema) (ins : List Node) (parent : Option TypeId) (level : List Node) (d _idx : Nat) :
     Res (Option (List Node)) :=
-  let go : Res (Option (List Node)) :=
-    match fcut level 0 d, fcut level d (fsize level) with
-    | .ok l, .ok r => .ok (some (fappend (fappend l ins) r))
-    | .error e, _ => .error e
-    | _, .error e => .error e
-  match parent with
-  | none => go
-  | some p =>
-    match S.canReplace p level idx idx ins 0 ins.length with
-    | none => .error .valueError
-    | some true => go
-    | some false => .ok none
+  match fcut level 0 d, fcut level d (fsize level) with
+  | .ok l, .ok r =>
+    let built := fappend (fappend l ins) r
+    match parent with
+    | none => .ok (some built)
+    | some p => if S.validContent p built then .ok (some built) else .ok none
+  | .error e, _ => .error e
+  | _, .error e => .error e
 
 /-- `insert_into(content, dist, insert, parent, open_start, open_end)`: the receiving node is
-    checked (`can_replace`) when it is complete in the slice; a child on an open side of the slice
+    checked (`valid_content` of the content that is built) when it is complete in the slice; a child on an open side of the slice
     (first child while `oa > 0`, last child while `ob > 0`) is only partly present and is validated
     when the slice is placed, so no check happens for it.  The top call from `Slice.insert_at` has no
     parent. -/
@@ -381,8 +383,13 @@ def insertInto (S : Schema) (ins : List Node) :
         | .error e => .error e
       | _ => flatInsert S ins parent level d0 idx
 
-/-- `Slice.insert_at(pos, fragment)`; `.ok none` = "Content does not fit in gap" -/
+/-- `Slice.insert_at(pos, fragment)`; `.ok none` = "Content does not fit in gap".
+    `if pos < 0 or pos > self.size: return None` comes first (beyond an open side the content would land next to the
+    open node and change which node the slice is open through; before that repair a step with `insert > slice.size`
+    could return a schema-invalid document).  `pos` is a `Nat` here: a negative `insert` (a peer can send one) is
+    outside the model's step type and answered `None` by the code. -/
 def Slice.insertAt (S : Schema) (sl : Slice) (pos : Nat) (frag : List Node) : Res (Option Slice) :=
+  if sl.size < (pos : Int) then .ok none else
   match insertInto S frag none sl.content (pos + sl.openStart) 0 sl.content (pos + sl.openStart)
       sl.openStart sl.openEnd with
   | .ok (some c) => .ok (some ⟨c, sl.openStart, sl.openEnd⟩)
